@@ -613,6 +613,116 @@ Proof.
   - destruct (att_co_complete n ids atts av av_range av_inj atts_live X HX) as (H1 & H2 & H3 & H4). eapply G; eassumption.
 Qed.
 
+
+(* ---- the four outcomes of the two queries, as pure facts *)
+Variable oracle : nat -> cnf -> list lit -> answer.
+Hypothesis Hvalid : valid_oracle oracle.
+Variable l : L.
+Variable id v : nat.
+Hypothesis Hg : get_argument af l = Some id.
+Hypothesis Hv : tbl_var (a_a2v e) id = Some v.
+
+Definition ext_ok (sm : sem) (f : fw) (X : list nat) : Prop :=
+  ext sm (af_of L f) X /\ NoDup X /\ incl X (args (af_of L f)).
+
+Lemma id_live : In id ids /\ av id = v.
+Proof. apply avd_some. exact Hv. Qed.
+
+Lemma label_of_get (l0 : L) i id0 : label_of L af i = Some l0 -> get_argument af l0 = Some id0 -> i = id0.
+Proof.
+  intros Hlab Hget. unfold label_of in Hlab.
+  destruct (nth i (slots (ls af)) None) as [[i' l']|] eqn:Ei; [|discriminate]. injection Hlab as ->.
+  pose proof (find_label_Some L leqb leqb_spec af l0 id0 Hinv Hget) as Hid.
+  exact (label_slot_unique L _ _ _ _ _ (inv_lab L af Hinv) Ei Hid eq_refl).
+Qed.
+
+Lemma sat_facts (lit : lit) (m : assignment) :
+  oracle (calls s) (cls s) (att_asm n idx ++ [lit]) = Sat m ->
+  let X := dyn_a2e (a_vars e) m in
+  ext_ok (sem_of (a_sem e)) af X /\
+  (forall i, In i X <-> In i ids /\ val_of m (av i) = true) /\
+  (forall i, In i ids -> value_of m (av i) <> None) /\
+  lit_true m lit = true.
+Proof.
+  intros Ho. pose proof (Hvalid (calls s) (cls s) (att_asm n idx ++ [lit])) as Hval. rewrite Ho in Hval.
+  destruct Hval as [Hm Ha]. rewrite forallb_app in Ha. apply andb_prop in Ha. destruct Ha as [Ha Hl].
+  cbn [forallb] in Hl. rewrite andb_true_r in Hl.
+  destruct (model_extension m Hm Ha) as (H1 & H2 & H3 & H4 & H5).
+  split; [split; [exact H1|split; [exact H2|exact H3]]|]. auto.
+Qed.
+
+Lemma unsat_facts (lit : lit) X :
+  oracle (calls s) (cls s) (att_asm n idx ++ [lit]) = Unsat ->
+  ext (sem_of (a_sem e)) F X ->
+  (forall vl : val, (vl v = true <-> In id X) -> vtrue vl lit = true) -> False.
+Proof.
+  intros Ho HX Hlit. pose proof (Hvalid (calls s) (cls s) (att_asm n idx ++ [lit])) as Hval. rewrite Ho in Hval.
+  destruct (extension_model X HX) as (vl & H1 & H2 & H3). apply (Hval vl H1).
+  rewrite forallb_app, H2. cbn [forallb andb]. rewrite andb_true_r. apply Hlit.
+  destruct id_live as [Hi <-]. apply H3. exact Hi.
+Qed.
+
+(* credulous query, SAT: the extension read off the model contains the argument, and so does it contain
+   every argument cached as accepted (every argument whose variable is not assigned false) *)
+Lemma dc_sat_facts m :
+  oracle (calls s) (cls s) (att_asm n idx ++ [zlit v]) = Sat m ->
+  let X := dyn_a2e (a_vars e) m in
+  ext_ok (sem_of (a_sem e)) af X /\ In id X /\
+  forall acc, labels_of L af (args_where not_some_false (a_vars e) m) = Some acc ->
+    forall l0 id0, lmem L leqb l0 acc = true -> get_argument af l0 = Some id0 -> In id0 X.
+Proof.
+  intros Ho X. destruct (sat_facts _ m Ho) as (H1 & H2 & H3 & H4). fold X in H1, H2.
+  destruct id_live as [Hi Hav]. pose proof (av_range id Hi) as Hr. rewrite Hav in Hr.
+  apply lit_true_zlit in H4; [|lia].
+  split; [exact H1|]. split.
+  - apply H2. split; [exact Hi|]. rewrite Hav. unfold val_of. rewrite H4. reflexivity.
+  - intros acc Hacc l0 id0 Hmem Hget. apply (lmem_In L leqb leqb_spec) in Hmem.
+    destruct (labels_of_In L af _ _ _ Hacc Hmem) as (i & Hi0 & Hlab).
+    assert (i = id0) by (eapply label_of_get; eassumption). subst i.
+    apply (in_args_where af e _ m id0 Ht) in Hi0. destruct Hi0 as (v0 & Hv0 & _ & Hp).
+    destruct (avd_some id0 v0 Hv0) as [Hi0 Hav0]. apply H2. split; [exact Hi0|].
+    pose proof (H3 id0 Hi0) as Hnn. rewrite Hav0 in *. unfold val_of.
+    destruct (value_of m v0) as [[|]|]; cbn in Hp; congruence.
+Qed.
+
+Lemma dc_unsat_facts :
+  oracle (calls s) (cls s) (att_asm n idx ++ [zlit v]) = Unsat -> ~ cred (sem_of (a_sem e)) F [id].
+Proof.
+  intros Ho (X & HX & a & [<-|[]] & Ha). apply (unsat_facts _ X Ho HX).
+  intros vl Hvl. destruct id_live as [Hi Hav]. pose proof (av_range id Hi) as Hr. rewrite Hav in Hr.
+  rewrite vtrue_zlit by lia. apply Hvl. exact Ha.
+Qed.
+
+(* skeptical query (stable), SAT: a counter-example extension; nothing cached as refused is a member *)
+Lemma ds_sat_facts m :
+  oracle (calls s) (cls s) (att_asm n idx ++ [znlit v]) = Sat m ->
+  let X := dyn_a2e (a_vars e) m in
+  ext_ok (sem_of (a_sem e)) af X /\ ~ In id X /\
+  forall refused, labels_of L af (args_where not_some_true (a_vars e) m) = Some refused ->
+    forall l0 id0, lmem L leqb l0 refused = true -> get_argument af l0 = Some id0 -> ~ In id0 X.
+Proof.
+  intros Ho X. destruct (sat_facts _ m Ho) as (H1 & H2 & H3 & H4). fold X in H1, H2.
+  destruct id_live as [Hi Hav]. apply lit_true_znlit in H4.
+  split; [exact H1|]. split.
+  - intros Hin. apply H2 in Hin. destruct Hin as [_ Hin]. rewrite Hav in Hin. unfold val_of in Hin. rewrite H4 in Hin. discriminate.
+  - intros refused Href l0 id0 Hmem Hget Hin. apply (lmem_In L leqb leqb_spec) in Hmem.
+    destruct (labels_of_In L af _ _ _ Href Hmem) as (i & Hi0 & Hlab).
+    assert (i = id0) by (eapply label_of_get; eassumption). subst i.
+    apply (in_args_where af e _ m id0 Ht) in Hi0. destruct Hi0 as (v0 & Hv0 & _ & Hp).
+    destruct (avd_some id0 v0 Hv0) as [_ Hav0]. apply H2 in Hin. destruct Hin as [_ Hin].
+    rewrite Hav0 in Hin. unfold val_of in Hin. unfold not_some_true, is_some_true in Hp.
+    destruct (value_of m v0) as [[|]|]; cbn in Hp; congruence.
+Qed.
+
+Lemma ds_unsat_facts :
+  oracle (calls s) (cls s) (att_asm n idx ++ [znlit v]) = Unsat -> skep (sem_of (a_sem e)) F [id].
+Proof.
+  intros Ho X HX. exists id. split; [left; reflexivity|].
+  destruct (memb id X) eqn:Em; [apply memb_spec; exact Em|exfalso]. apply memb_false in Em.
+  apply (unsat_facts _ X Ho HX). intros vl Hvl. rewrite vtrue_znlit. apply negb_true_iff.
+  destruct (vl v) eqn:E; [|reflexivity]. exfalso. apply Em. apply Hvl. reflexivity.
+Qed.
+
 End Answer.
 
 End Fun.
